@@ -334,12 +334,12 @@ def idxFrom (k : Nat) : List Bytes → List (Nat × Bytes)
 def idxCache (cache : List Bytes) : List (Nat × Bytes) := idxFrom 0 cache
 
 /-- the decoder configuration fits the encoder's cache: no cache at all (any configuration), or the owned decoder
-with exactly that cache (ATOM_CACHE_REF is not in the zero-copy decoder's tag set) -/
+whose table holds that cache's atoms at their positions (ATOM_CACHE_REF is not in the zero-copy decoder's tag set;
+the table may hold other, stale positions as well) -/
 def cfgFor (cache : List Bytes) (cfg : DecCfg) : Prop :=
-  cache = [] ∨ (cfg.borrowed = false ∧ cfg.cache = idxCache cache)
+  cache = [] ∨ (cfg.borrowed = false ∧ ∀ a i, indexOf? a cache = some i → cfg.cache.lookup i = some a)
 
 theorem cfgFor_nil (cfg : DecCfg) : cfgFor [] cfg := Or.inl rfl
-theorem cfgFor_idx (cache : List Bytes) : cfgFor cache { cache := idxCache cache } := Or.inr ⟨rfl, rfl⟩
 
 theorem indexOf?_lt (a : Bytes) (c : List Bytes) (i : Nat) (h : indexOf? a c = some i) : i < c.length := by
   induction c generalizing i with
@@ -385,6 +385,9 @@ theorem lookup_idxCache (a : Bytes) (c : List Bytes) (i : Nat) (h : indexOf? a c
   have := lookup_idxFrom a c 0 i h
   simpa [idxCache] using this
 
+theorem cfgFor_idx (cache : List Bytes) : cfgFor cache { cache := idxCache cache } :=
+  Or.inr ⟨rfl, fun a i h => lookup_idxCache a cache i h⟩
+
 theorem enc_atomC_ok (cache : List Bytes) (a bs : Bytes) (h : encAtom cache a = .ok bs) :
     (∃ i, indexOf? a cache = some i ∧ bs = [82, UInt8.ofNat i]) ∨
     (indexOf? a cache = none ∧ a.length ≤ 255 ∧ bs = 119 :: be8 a.length ++ a) ∨
@@ -414,7 +417,7 @@ theorem dec_atomC (x : Ext) (cfg : DecCfg) (cache : List Bytes) (a bs r : Bytes)
     · have hi256 : i < 256 := by have := indexOf?_lt a cache i hi; omega
       simp only [List.cons_append, List.nil_append]
       rw [dec.eq_3]
-      simp [hd', hb, rdU_byte i r hi256, hcc, lookup_idxCache a cache i hi]
+      simp [hd', hb, rdU_byte i r hi256, hcc a i hi]
   · simp only [List.cons_append, List.append_assoc]
     rw [dec.eq_3]
     have hm : ¬ a.length > MAX_ATOM_SIZE := by simp [MAX_ATOM_SIZE]; omega
